@@ -10,3 +10,6 @@ func CheckEffectsGraph(run *core.Run, prog *load.Program) {}
 
 // PositiveControlEffects makes sure the mutator scanner still recognises a mutator.
 func PositiveControlEffects(run *core.Run) {}
+
+// CheckDestKinds is the string-kind consistency rule of C10(c,d) (see kinds of strings: identifier / import path / directory).
+func CheckDestKinds(run *core.Run, prog *load.Program) {}
